@@ -2,6 +2,7 @@ import MythVerif.Proofs.PiDagCert
 import MythVerif.Proofs.PiDagIntern
 import MythVerif.Proofs.PiDagShrink
 import MythVerif.Proofs.PiDagStrings
+import MythVerif.Proofs.PiDagFlattenCert
 import MythVerif.Properties.C18
 /-!
 # C19 — DAG files are well formed and survive a dump / read / convert round trip
@@ -17,11 +18,14 @@ duplicate-free table, and an elimination order certifying that every leaf is rea
 What is proved here for ALL inputs: the checker is sound for the replay postcondition
 (`C19_wf_replay`: any DAG — of any size, produced by whatever recording / contraction /
 conversion — that `wellFormed` accepts is traversed completely, each leaf exactly once, whatever
-the event order), and the string table discipline (`C19_intern`).  That every `flatten` /
-`shrink` output is accepted by the checker is NOT proved in general (see the `_partial`
-theorems and the full statements next to them): it is established per run by executing the
-verified checker on every dumped and converted DAG (check/props/c19.py), the model's arrays being
-compared field by field with the implementation's.  File I/O is not modelled.
+the event order), the string table discipline (`C19_intern`), and that every `flatten` output
+(= the dump of a recorded DAG: any well-nested execution, any contraction options) is accepted by
+the checker (`C19_flatten_wf`: all seven conjuncts — offsets, edgeEnds, grouped, counted, strings,
+degrees, certificate), hence is traversed completely by the replay (`C19_flatten_replay`).
+That every `shrink` output is accepted is NOT proved in general (see `C19_prune_wf_partial` and the
+full statement next to it): it is established per run by executing the verified checker on every
+converted DAG (check/props/c19.py), the model's arrays being compared field by field with the
+implementation's.  File I/O is not modelled.
 -/
 namespace MythVerif.PiDag
 open MythVerif.DagRec
@@ -78,26 +82,86 @@ theorem C19_intern (names : List Nat) :
     rw [e, ← b] at a
     exact (List.getElem?_inj (hlt j hj) h1).mp a
 
-/-
-The full statement about `flatten` (NOT proved in general; established per run by executing the
-verified checker on every dumped DAG, contracted or not):
+/-- **every dump of a recorded DAG is well formed**: for every well-nested execution `t`, both
+    variants of the recorder and every setting of the contraction options (collapse_max,
+    uncollapse_min, collapse_max_count, node_count_target / prune_threshold), the position
+    independent DAG `dr_make_pi_dag` builds from the in-memory DAG passes all seven checks of the
+    well-formedness checker: offsets, edgeEnds, grouped, counted, strings, degrees, certificate. -/
+theorem C19_flatten_wf (v : Variant) (o : Opts) (sc nw : Nat) (t : Tree) (h : wnTask t = true) :
+    wellFormed (flatten sc nw (record v o sc t)) = true :=
+  flatten_wellFormed sc nw _ (record_gram v o sc t h)
 
-  theorem C19_flatten_wf (v : Variant) (o : Opts) (sc nw : Nat) (t : Tree) (h : wnTask t = true) :
-      wellFormed (flatten sc nw (record v o sc t)) = true
--/
-/-- the part of `C19_flatten_wf` that is proved for every in-memory DAG (contracted in any way):
-    the string-table conjunct of `wellFormed` (every `file_idx` inside a duplicate-free table),
+/-- the same for every in-memory DAG of the shape the recorder produces (`gTask`: the grammar
+    `task ::= (section | other)* end`, `section ::= (section | create task | other)* wait` with any
+    subset of the sections / tasks collapsed; `record_gram` shows every `record` output has it) -/
+theorem C19_flatten_wf_shape (sc nw : Nat) (d : DNode) (h : gTask d = true) :
+    wellFormed (flatten sc nw d) = true :=
+  flatten_wellFormed sc nw d h
+
+/-- hence the chronological replay of every dumped DAG (whatever the dequeue order) terminates with
+    an empty queue, nothing running and nothing ready, having started and ended every leaf once -/
+theorem C19_flatten_replay (v : Variant) (o : Opts) (sc nw : Nat) (t : Tree) (h : wnTask t = true)
+    (pick : List Event → Nat) :
+    let G := flatten sc nw (record v o sc t)
+    (replayWith pick G (4 * G.T.size + 4) (initReplay G)).queue = [] ∧
+    (replayWith pick G (4 * G.T.size + 4) (initReplay G)).nRunning = 0 ∧
+    (replayWith pick G (4 * G.T.size + 4) (initReplay G)).nReady = 0 ∧
+    ∀ i, i < G.T.size →
+      (replayWith pick G (4 * G.T.size + 4) (initReplay G)).started[i]! = (if isLeaf G.T[i]! then 1 else 0) ∧
+      (replayWith pick G (4 * G.T.size + 4) (initReplay G)).ended[i]! = (if isLeaf G.T[i]! then 1 else 0) := by
+  intro G
+  obtain ⟨h1, h2, h3, h4⟩ := C19_wf_replay G (C19_flatten_wf v o sc nw t h) pick
+  exact ⟨h1, h3, h4, fun i hi => ⟨(h2 i hi).2.1, (h2 i hi).2.2.2⟩⟩
+
+/-- a corollary of the proof of `C19_flatten_wf`, conjunct by conjunct.  For every in-memory DAG whatsoever: the
+    string-table conjunct of `wellFormed` (every `file_idx` inside a duplicate-free table),
     `dr_pi_dag_enum_nodes` gives every materialised node exactly one slot of `T`, and slot 0 is the
-    root with its `info` (work, critical path, counts, node counters) unchanged by the copy -/
+    root with its `info` (work, critical path, counts, node counters) unchanged by the copy.
+    For every in-memory DAG of the shape the recorder produces (`gTask`: the grammar
+    `task ::= (section | other)* end`, `section ::= (section | create task | other)* wait` with any
+    subset of the sections / tasks collapsed — see `record_gram`) the other six conjuncts:
+    * `offsets`: child / subgraph offsets inside the DAG, children blocks contiguous and disjoint,
+      every slot but the root the child of exactly one node;
+    * `edgeEnds`: both ends of every edge are leaves inside the DAG;
+    * `grouped`: `E` sorted by source, `edges_begin` / `edges_end` a partition of `E` by source;
+    * `counted`: `m` = `dr_pi_dag_count_edges_uncollapsed`;
+    * `degrees`: the in-degrees counted through the per-node edge ranges are those over all of `E`;
+    * `certificate`: the in-degree driven elimination from the first leaf is a topological order
+      covering every leaf, every leaf but the first has a predecessor and no inner node has one. -/
 theorem C19_flatten_wf_partial (sc nw : Nat) (d : DNode) :
     (wfReport (flatten sc nw d)).strings = true ∧
     (flatten sc nw d).T.size = d.count ∧
     (flatten sc nw d).T[0]!.info.c.t1 = d.info.c.t1 ∧ (flatten sc nw d).T[0]!.info.c.tinf = d.info.c.tinf ∧
     (flatten sc nw d).T[0]!.info.c.nc = d.info.c.nc ∧ (flatten sc nw d).T[0]!.info.c.ec = d.info.c.ec ∧
-    (flatten sc nw d).T[0]!.info.cur = d.info.cur ∧ (flatten sc nw d).T[0]!.info.min = d.info.min := by
+    (flatten sc nw d).T[0]!.info.cur = d.info.cur ∧ (flatten sc nw d).T[0]!.info.min = d.info.min ∧
+    (gTask d = true →
+      (wfReport (flatten sc nw d)).offsets = true ∧ (wfReport (flatten sc nw d)).edgeEnds = true ∧
+      (wfReport (flatten sc nw d)).grouped = true ∧ (wfReport (flatten sc nw d)).counted = true ∧
+      (wfReport (flatten sc nw d)).degrees = true ∧ (wfReport (flatten sc nw d)).certificate = true) := by
   obtain ⟨h1, h2⟩ := flatten_spec sc nw d
   rw [h2]
-  exact ⟨flatten_wfStrings sc nw d, h1, rfl, rfl, rfl, rfl, rfl, rfl⟩
+  exact ⟨flatten_wfStrings sc nw d, h1, rfl, rfl, rfl, rfl, rfl, rfl, fun h =>
+    ⟨flatten_wfOffsets sc nw d h, flatten_wfEdgeEnds sc nw d h, flatten_wfGrouped sc nw d h,
+      flatten_counted sc nw d h, flatten_wfDegrees sc nw d h, flatten_wfCertificate sc nw d h⟩⟩
+
+/-- `C19_flatten_wf` conjunct by conjunct: for every well-nested execution, every variant of the
+    recorder and every setting of the contraction options, the dump of the recorded DAG passes the
+    `offsets`, `edgeEnds`, `grouped`, `counted`, `strings`, `degrees` and `certificate` checks -/
+theorem C19_flatten_wf_partial_record (v : Variant) (o : Opts) (sc nw : Nat) (t : Tree) (h : wnTask t = true) :
+    (wfReport (flatten sc nw (record v o sc t))).offsets = true ∧
+    (wfReport (flatten sc nw (record v o sc t))).edgeEnds = true ∧
+    (wfReport (flatten sc nw (record v o sc t))).grouped = true ∧
+    (wfReport (flatten sc nw (record v o sc t))).counted = true ∧
+    (wfReport (flatten sc nw (record v o sc t))).strings = true ∧
+    (wfReport (flatten sc nw (record v o sc t))).degrees = true ∧
+    (wfReport (flatten sc nw (record v o sc t))).certificate = true := by
+  obtain ⟨hs, _, _, _, _, _, _, _, hg⟩ := C19_flatten_wf_partial sc nw (record v o sc t)
+  obtain ⟨g1, g2, g3, g4, g5, g6⟩ := hg (record_gram v o sc t h)
+  exact ⟨g1, g2, g3, g4, hs, g5, g6⟩
+
+/-- for EVERY DAG (however produced), the `degrees` check is implied by the `grouped` check -/
+theorem C19_grouped_degrees (G : PiDag) (h : (wfReport G).grouped = true) : (wfReport G).degrees = true :=
+  wfDegrees_of_grouped G h
 
 /-- hence the root of every dumped DAG carries exactly the totals of the uncontracted interval
     sequence, whatever the contraction options were (C18 carried over to the file) -/
@@ -151,6 +215,30 @@ example : wellFormed { tiny with E := #[], T := #[mkN .task 0 0 1 3, mkN .other 
 /-- a child offset pointing outside the DAG is rejected -/
 example : wellFormed { tiny with T := #[mkN .task 0 0 1 4, mkN .other 0 1 0 0, mkN .endTask 1 1 0 0] } = false := by
   decide +kernel
+/-- an execution with a child task and nested sections; `collapse_max = 3` collapses the inner
+    section (single worker, span 2), so the recorded DAG keeps 9 of the 11 nodes -/
+def exTree : Tree :=
+  let r (a b w : Nat) : Raw := { startT := a, endT := b, worker := w }
+  .group .task (.cons (.group .section (.cons (.create (r 0 1 0) (.group .task (.cons (.ival .endTask (r 1 5 1)) .nil)))
+      (.cons (.group .section (.cons (.ival .other (r 1 2 0)) (.cons (.ival .waitTasks (r 2 3 0)) .nil)))
+        (.cons (.ival .waitTasks (r 3 6 0)) .nil))))
+    (.cons (.ival .other (r 6 7 0)) (.cons (.ival .endTask (r 7 8 0)) .nil)))
+
+/-- the hypotheses of `C19_flatten_wf` / `C19_flatten_replay` / `C19_flatten_wf_partial_record`
+    (`wnTask`) and of `C19_flatten_wf_shape` / `C19_flatten_wf_partial` (`gTask`) are satisfiable by a
+    DAG that really is contracted -/
+example : wnTask exTree = true := by decide
+example : gTask (record .fixed { collapseMax := 3 } 0 exTree) = true := by decide
+example : (record .fixed { collapseMax := 3 } 0 exTree).count = 9 ∧ (record .fixed {} 0 exTree).count = 11 := by decide
+/-- `C19_flatten_wf` applied to this contracted DAG -/
+example : wellFormed (flatten 0 2 (record .fixed { collapseMax := 3 } 0 exTree)) = true :=
+  C19_flatten_wf .fixed { collapseMax := 3 } 0 2 exTree (by decide)
+/-- the shape hypothesis of `C19_flatten_wf_shape` cannot be dropped: an in-memory "DAG" that is a lone
+    create node (no child task, not a task itself) is dumped to something the checker rejects -/
+example : gTask (.ival { c := { kind := .createTask } }) = false ∧
+    wellFormed (flatten 0 1 (.ival { c := { kind := .createTask } })) = false := by decide +kernel
+/-- `C19_grouped_degrees`: its hypothesis holds of `tiny` -/
+example : (wfReport tiny).grouped = true := by decide +kernel
 /-- interning `a b a c b` : three distinct names, indices 0 1 0 2 1 -/
 example : internAll [] [7, 9, 7, 4, 9] = ([7, 9, 4], [0, 1, 0, 2, 1]) := by decide
 
